@@ -54,23 +54,42 @@ class Response:
         self.cookies[name] = value
 
 
-def build(spec):
-    """spec = [id, [child specs]]"""
-    return Node(spec[0], [build(c) for c in spec[1]])
+class Leaf:
+    """Content object: no branches method at all."""
+
+    def __init__(self, nid):
+        self.nid = nid
+
+    def tpId(self):
+        return self.nid
+
+    def tpURL(self):
+        return 'u'
+
+
+def build(spec, plain_leaves=False):
+    """spec = [id, [child specs]]; plain_leaves: childless nodes are
+    objects without a tpValues method."""
+    if plain_leaves and not spec[1]:
+        return Leaf(spec[0])
+    return Node(spec[0], [build(c, plain_leaves) for c in spec[1]])
 
 
 _T = {}
 
 
+# 'leaf-objects' is not a tag option: it makes the childless nodes objects
+# without a branches method (folders and documents mixed)
 OPTIONS = ['', 'assume_children', 'reverse', 'sort=nid', 'nowrap',
-           'assume_children reverse', 'sort=nid reverse']
+           'assume_children reverse', 'sort=nid reverse', 'leaf-objects',
+           'leaf-objects reverse']
 
 
 def template(opts=''):
     from DocumentTemplate import HTML
     if opts not in _T:
         _T[opts] = HTML('<dtml-tree root %s>⟦<dtml-var tpId>⟧</dtml-tree>'
-                        % opts)
+                        % opts.replace('leaf-objects', '').strip())
     return _T[opts]
 
 
@@ -248,7 +267,7 @@ def apply_action(spec, expanded, action, rows_model, leaves=None):
 
 def play(spec, history, opts=''):
     """Replay a history from scratch -> None or (bucket, msg)."""
-    root = build(spec)
+    root = build(spec, 'leaf-objects' in opts)
     expanded = set()
     leaves = set()
     rows, cookie, _ = render(root, opts=opts)
@@ -318,7 +337,7 @@ def label(shape, scramble=False):
 
 def explore(spec, max_len, acc, budget, opts=''):
     """Depth-first enumeration of every click history up to max_len."""
-    root = build(spec)
+    root = build(spec, 'leaf-objects' in opts)
     count = [0]
 
     def rec(expanded, rows, cookie, history, nt, leaves=frozenset()):
@@ -487,11 +506,13 @@ def machine_class():
         @initialize(t=st.lists(tree, min_size=1, max_size=5),
                     opts=st.sampled_from(['', '', 'assume_children',
                                           'reverse', 'nowrap',
-                                          'assume_children reverse']))
+                                          'assume_children reverse',
+                                          'leaf-objects',
+                                          'leaf-objects reverse']))
         def start(self, t, opts):
             self.spec = ['root', uniq(t)]
             self.opts = opts
-            self.root = build(self.spec)
+            self.root = build(self.spec, 'leaf-objects' in opts)
             self.expanded = set()
             self.leaves = set()
             self.history = []
